@@ -753,6 +753,11 @@ pub fn check(rec: &RunRecord) -> Vec<Violation> {
             // Convergence / snapshot clauses do not apply to a lane that failed.
             continue;
         }
+        // A remote that took over the id of one that was still attached: the answers to what the replaced remote asked
+        // for on this lane are split between the two channels; what the new one holds is then not a replica it asked for.
+        if reqs.iter().any(|s| s.peer != *peer && matches!(s.op, Op::Link { .. } | Op::Sync { .. })) {
+            continue;
+        }
 
         let (sess, _outside) = sessions(frames);
 
